@@ -59,6 +59,46 @@ def snippet_data(src, rnd, n=3):
     return out
 
 
+def expr_value_pass(ck, tree_cases, tier, seed):
+    """D: every expression tree of spec/WxmlExpr.tla: the *printed* form of `<v a="{{ e }}"/>` (plain and mangled) must
+    still evaluate to the reference value of the tree e (the C03 oracle applied after the stringifier)."""
+    import c03
+    cases = []
+    for c in tree_cases:
+        if "array-spread" in c03.known_sig(c["tree"]):
+            continue            # C03's known finding would show through the printed text as well
+        cases.append({"tree": c["tree"], "text": " ".join(c["toks"])})
+    vcases = []
+    size = 400
+    for k in range(0, len(cases), size):
+        vcases.append({"id": k, "files": [["e/%d" % i, '<v a="{{ %s }}"/>' % c["text"]] for i, c in enumerate(cases[k:k + size])], "want": ["str"]})
+    vres = vlib.run_vh("tmpl", vcases)
+    printed = []
+    for k, r in zip(range(0, len(cases), size), vres):
+        if r["panic"]:
+            continue
+        for i, c in enumerate(cases[k:k + size]):
+            x = r["str"].get("e/%d" % i) or {}
+            if any(w[1] >= 2 for w in (x.get("w") or [])):
+                continue        # not accepted by the parser: nothing to preserve
+            for key in ("plain", "mangled"):
+                if x.get(key) is not None and (key == "plain" or x.get("mangled") != x.get("plain")):
+                    printed.append({"tree": c["tree"], "text": c["text"], "printed": x[key], "mode": key})
+    # the original spelling must itself agree with the tree, otherwise the disagreement is C03's
+    bad_orig = set()
+    c03.evaluate(ck, [dict(c) for c in cases], tier, seed, lambda c, m: bad_orig.add(c["text"]), count_nontrivial=False)
+
+    def on_mismatch(c, m):
+        if c["text"] in bad_orig:
+            return
+        ck.report({"sig": "printed-expression-value", "orig": '<v a="{{ %s }}"/>' % c["text"], "text": c["text"], "printed": c["printed"], "mode": c["mode"],
+                   "tree": c["tree"], "env": m["env"], "got": m["got"], "want": m["want"]},
+                  "the printed form evaluates differently (%s): {{ %s }} is printed as %r; with %s it gives %s, the source expression gives %s" % (
+                      c["mode"], c["text"], c["printed"], m["env"], m["got"], m["want"]))
+    c03.evaluate(ck, printed, tier, seed, on_mismatch, template_of=lambda c: c["printed"], count_nontrivial=False)
+    ck.notes.append("expression pass: %d trees printed into %d texts and evaluated against the tree oracle" % (len(cases), len(printed)))
+
+
 def run(tier, seed, replay):
     ck = vlib.Check("C14", tier, seed)
     ck.rule = ("A: cases of families F1-F6 and update histories of UD/UI/US/F4/F5, concretised, printed by the real "
@@ -70,6 +110,9 @@ def run(tier, seed, replay):
     rnd = vlib.rng(seed, "c14")
     if replay:
         case = json.load(open(replay))["case"]
+        if case.get("sig") == "printed-expression-value":
+            expr_value_pass(ck, [{"tree": case["tree"], "toks": [case["text"]]}], "thorough", seed)
+            return ck.finish()
         if "files" in case:
             cases = [{"files": case["files"], "data": case["data"], "tree": case["tree"], "steps": case.get("steps") or [],
                       "family": case.get("family")}]
@@ -135,10 +178,13 @@ def run(tier, seed, replay):
     # ---- C: every expression tree of spec/WxmlExpr.tla as a binding (attribute and text position)
     if not replay:
         import concretise
-        eres = vlib.tlc("MCWxmlExpr", workers=8, timeout=900, sample=(6, seed) if tier == "quick" else None)
+        eres = vlib.tlc("MCWxmlExpr", workers=8, timeout=900)
         vlib.tlc_expect_ok(eres, "MCWxmlExpr")
         ck.add_tlc(eres)
-        for c in eres.cases:
+        expr_value_pass(ck, eres.cases, tier, seed)
+        for n, c in enumerate(eres.cases):
+            if tier == "quick" and (n + seed) % 6:
+                continue
             t = " ".join(c["toks"])
             if '"' in t:
                 continue
